@@ -278,7 +278,7 @@ func c10Specs(thorough bool) []*gen.ProgSpec {
 						if n >= 4 && variant != int(m)%4 {
 							continue // one variant per case for the larger sizes
 						}
-						specs = append(specs, &gen.ProgSpec{Tracks: []gen.ProgTrack{mkTrack("video", 1000, n, ch, durs, variant, mask, true)}, MdatFirst: variant&1 != 0, LeadIn: variant % 2})
+						specs = append(specs, &gen.ProgSpec{Tracks: []gen.ProgTrack{mkTrack("video", 1000, n, ch, durs, variant, mask, true)}, MdatFirst: variant&1 != 0, LeadIn: variant % 2, MdatLarge: variant&2 != 0})
 					}
 				})
 			}
@@ -332,7 +332,7 @@ func c10Specs(thorough bool) []*gen.ProgSpec {
 									v := mkTrack("video", 1000, nv, chv, vd, (len(ord)+dv)%4, mask, true)
 									a := mkTrack("audio", ats, na, cha, ad, (len(ord)+mi)%4, 0, false)
 									a.Edts = false
-									specs = append(specs, &gen.ProgSpec{Tracks: []gen.ProgTrack{v, a}, ChunkOrder: ord, MdatFirst: mi == 1})
+									specs = append(specs, &gen.ProgSpec{Tracks: []gen.ProgTrack{v, a}, ChunkOrder: ord, MdatFirst: mi == 1, MdatLarge: len(ord)%2 == 1})
 								}
 							}
 						}
@@ -351,7 +351,7 @@ func runC10(c *vf.Ctx) {
 	} else {
 		c.SetBudget(4 * 60 * 1e9)
 	}
-	c.Rule = "generated progressive files: single video track with stss (all chunkings x every sync subset containing sample 1 x duration tuples over {1,2,3} x ctts/sdtp/co64/edts/mdat-first variants), single audio / video track without stss, video+audio (all chunkings of both x every merge order of the chunks in mdat x sync subsets; audio timescale 1000 and 600) ; each file is cropped in-process by the tool's own cropMP4 (overlay-injected driver) at EVERY millisecond 1..total+2. A case = (file, ms). Only successful crops are judged; tool errors/panics are tallied."
+	c.Rule = "generated progressive files: single video track with stss (all chunkings x every sync subset containing sample 1 x duration tuples over {1,2,3} x ctts/sdtp/co64/edts/mdat-first/64-bit-mdat-header variants), single audio / video track without stss, video+audio (all chunkings of both x every merge order of the chunks in mdat x sync subsets; audio timescale 1000 and 600) ; each file is cropped in-process by the tool's own cropMP4 (overlay-injected driver) at EVERY millisecond 1..total+2. A case = (file, ms). Only successful crops are judged; tool errors/panics are tallied."
 	c.Bound = "single track N <= 5 (quick) / 6 (thorough) samples; video+audio N <= 3 / 4 each, audio timescale 1000 and 600 (reference track always 1000)"
 	specs := c10Specs(thorough)
 	c.Set("files", len(specs))
